@@ -2,7 +2,7 @@
    assumptions are printed by the check. Statements are about the executable model SC.C18.Model,
    which the correspondence check ties to src/preprocessing/{categorical,series_encoder}.rs. *)
 From Coq Require Import List Arith Bool.
-From SC Require Import C18.Model C18.Proofs.
+From SC Require Import C18.Model C18.Proofs C18.Layout.
 Import ListNotations.
 
 (* Index map of `find_new_idxs` for every p, every strictly increasing categorical index list
@@ -38,7 +38,48 @@ Theorem C18_mapper_inverse_laws : forall series,
   (forall c, get_num cats c = None <-> ~ In c series).
 Proof. exact mapper_laws. Qed.
 
+(* The layout clause for whole matrices: for EVERY non-empty matrix x (rows of any values), every
+   duplicate-free list of categorical column indices < p given in ANY order, and whatever the value
+   type and the cast to a category are: if `fit` succeeds then the stored indices are the sorted list,
+   the mappers are the first-appearance category lists of the columns, `transform` of the same matrix
+   succeeds, and every output row r_i of input row x_i satisfies `row_layout`:
+     - it has p + sum_c (k_c - 1) entries,
+     - plain column j sits unchanged at position ni j = j + sum_{categorical c<j}(k_c - 1)
+       (so plain columns keep their relative order, by C18_new_idx_formula / monotonicity of ni),
+     - categorical column c occupies positions ni c .. ni c + k_c - 1 and holds `vone` exactly at
+       offset get_num(mapper_c)(category of x_i[c]) — the rank of first appearance — and `vzero`
+       elsewhere in the block. *)
+Theorem C18_onehot_layout : forall (V : Type) (vzero vone : V) (to_cat : V -> nat) (valid : V -> bool)
+    (x : list (list V)) (idxs : list nat) (p : nat) enc,
+  x <> [] -> NoDup idxs -> (forall c, In c idxs -> c < p) ->
+  fit vzero to_cat valid x idxs = Some enc ->
+  cat_cols enc = sort_nat idxs /\
+  mappers enc = map (fun c => fit_to_iter (map to_cat (column vzero x c))) (sort_nat idxs) /\
+  exists r, transform vzero vone to_cat enc p x = Some r /\
+            Forall2 (row_layout vzero vone to_cat enc p) x r.
+Proof. exact @onehot_layout. Qed.
+
+(* fit rejects a categorical column holding a value that is not (within the margin) an integer code,
+   and transform rejects a value whose category was not seen in fitting *)
+Theorem C18_non_integer_error : forall (V : Type) (vzero : V) (to_cat : V -> nat) (valid : V -> bool)
+    (x : list (list V)) (idxs : list nat) c xr,
+  In c idxs -> In xr x -> valid (nth c xr vzero) = false -> fit vzero to_cat valid x idxs = None.
+Proof. exact @fit_rejects_invalid. Qed.
+
+Theorem C18_unseen_value_error : forall (V : Type) (vzero vone : V) (to_cat : V -> nat)
+    (enc : encoder) (p : nat) (x : list (list V)) xr pidx c,
+  In xr x -> nth_error (cat_cols enc) pidx = Some c -> length (mappers enc) = length (cat_cols enc) ->
+  ~ In (to_cat (nth c xr vzero)) (nth pidx (mappers enc) []) ->
+  transform vzero vone to_cat enc p x = None.
+Proof. exact @transform_rejects_unseen. Qed.
+
 (* hypotheses are satisfiable: categorical columns {1,4} of 6 with 3 and 2 categories *)
 Example C18_formula_instance :
   find_new_idxs 6 [3; 2] [1; 4] = [0; 1; 4; 5; 6; 8] /\ sorted_lt 0 [1; 4].
 Proof. split; [reflexivity | cbn; repeat split; auto with arith]. Qed.
+
+(* ... and for the layout theorem: V = nat, columns {2,0} of 3 given in descending order *)
+Example C18_layout_instance :
+  exists enc, fit 0 (fun v => v) (fun _ => true) [[1;5;7];[2;5;8]] [2;0] = Some enc /\
+              transform 0 1 (fun v => v) enc 3 [[1;5;7];[2;5;8]] = Some [[1;0;5;1;0];[0;1;5;0;1]].
+Proof. eexists. split; reflexivity. Qed.
